@@ -52,27 +52,70 @@ func errName(err error) string {
 	return "other:" + strings.ReplaceAll(err.Error(), " ", "_")
 }
 
-// slowReader hands out the data in pieces whose sizes come from the schedule PRNG.
+// segReader is the scripted underlying reader: it hands out the stream in segments chosen by the schedule
+// PRNG (the result must not depend on them).  Modes: 0-3 everything that fits (about half of the cases),
+// 4 one byte per Read, 5 a cut after every LF (each read ends exactly at the end of a line), 6 short random
+// pieces with empty reads (0, nil) in between, 7 cuts placed at / around CR, LF and random places with empty
+// reads.  With eofWithData the last piece is returned together with io.EOF.
 type slowReader struct {
-	data []byte
-	r    *vh.Rand
-	mode int
+	data        []byte
+	r           *vh.Rand
+	mode        int
+	eofWithData bool
+	lastEmpty   bool
+}
+
+func newSlowReader(data []byte, sr *vh.Rand) *slowReader {
+	return &slowReader{data: data, r: sr, mode: sr.Intn(8), eofWithData: sr.Bool()}
 }
 
 func (s *slowReader) Read(p []byte) (int, error) {
 	if len(s.data) == 0 {
 		return 0, io.EOF
 	}
+	if len(p) == 0 {
+		return 0, nil
+	}
 	n := len(p)
 	switch s.mode {
-	case 0: // everything that fits
-	case 1:
+	case 0, 1, 2, 3:
+	case 4:
 		n = 1
-	case 2:
-		n = s.r.Range(1, 7)
+	case 5:
+		if i := bytes.IndexByte(s.data, '\n'); i >= 0 {
+			n = i + 1
+		}
+	case 6:
+		if !s.lastEmpty && s.r.Chance(1, 4) {
+			s.lastEmpty = true
+			return 0, nil
+		}
+		n = s.r.Range(1, 9)
 	default:
-		n = s.r.Range(1, 5000)
+		if !s.lastEmpty && s.r.Chance(1, 6) {
+			s.lastEmpty = true
+			return 0, nil
+		}
+		switch s.r.Intn(4) {
+		case 0: // up to and including the next CR (cut between CR and LF)
+			if i := bytes.IndexByte(s.data, '\r'); i >= 0 {
+				n = i + 1
+			}
+		case 1: // up to just before the next CR / LF
+			if i := bytes.IndexAny(s.data, "\r\n"); i > 0 {
+				n = i
+			} else {
+				n = 1
+			}
+		case 2: // through the next LF
+			if i := bytes.IndexByte(s.data, '\n'); i >= 0 {
+				n = i + 1
+			}
+		default:
+			n = s.r.Range(1, 300)
+		}
 	}
+	s.lastEmpty = false
 	if n > len(p) {
 		n = len(p)
 	}
@@ -81,6 +124,9 @@ func (s *slowReader) Read(p []byte) (int, error) {
 	}
 	copy(p, s.data[:n])
 	s.data = s.data[n:]
+	if len(s.data) == 0 && s.eofWithData {
+		return n, io.EOF
+	}
 	return n, nil
 }
 
@@ -88,7 +134,7 @@ var bufSizes = []int{1, 2, 3, 7, 16, 100, 1000, 4095, 4096, 4097, 8192, 20000}
 
 func decode(stream []byte, k uint64) string {
 	sr := vh.NewRand(k)
-	under := &slowReader{data: stream, r: sr, mode: sr.Intn(4)}
+	under := newSlowReader(stream, sr)
 	br := bfe_bufio.NewReader(under)
 	cr := bfe_http.VerifNewChunkedReader(br)
 	var body []byte
